@@ -61,7 +61,40 @@ fn b64_menu() -> Vec<Value> {
         v.extend_from_slice(d);
         BASE64_STANDARD_NO_PAD.encode(v)
     };
-    vec![json!(""), json!("="), json!("=="), json!("AA"), json!("AQ"), json!("Ag"), json!("Aw"), json!("A"), json!("!!"), json!(enc(2, &z[..6])), json!(enc(2, &z)), json!(enc(1, &nada::encode(vec![0u8; 8 << 20]))), json!(enc(0, &[0xde, 0xad]))]
+    let mut v = vec![json!(""), json!("="), json!("=="), json!("AA"), json!("AQ"), json!("Ag"), json!("Aw"), json!("A"), json!("!!"), json!(enc(2, &z[..6])), json!(enc(2, &z)), json!(enc(1, &nada::encode(vec![0u8; 8 << 20]))), json!(enc(0, &[0xde, 0xad]))];
+    // zstd frame headers that only *declare* a content size (no honest frame has these sizes)
+    for f in forged_zstd_headers(true) {
+        v.push(json!(enc(2, &f)));
+    }
+    v
+}
+
+/// A zstd frame consisting of a header that declares `size` as its content size (single segment, field width
+/// chosen by `fcs`: 3 = 8 bytes, 2 = 4 bytes, 1 = 2 bytes (+256), 0 = 1 byte) and one empty last block.
+pub fn forged_zstd_frame(fcs: u8, size: u64) -> Vec<u8> {
+    let mut v = vec![0x28, 0xb5, 0x2f, 0xfd, (fcs << 6) | 0x20];
+    match fcs {
+        3 => v.extend_from_slice(&size.to_le_bytes()),
+        2 => v.extend_from_slice(&(size as u32).to_le_bytes()),
+        1 => v.extend_from_slice(&((size.saturating_sub(256)) as u16).to_le_bytes()),
+        _ => v.push(size as u8),
+    }
+    v.extend_from_slice(&[0x01, 0x00, 0x00]);
+    v
+}
+
+/// `with_huge`: also sizes between 2^34 and 2^62, which an implementation that allocates what the header
+/// declares can only answer by dying in the allocator (use in watched child processes only).
+pub fn forged_zstd_headers(with_huge: bool) -> Vec<Vec<u8>> {
+    let limit = brc20_prog::verif::CALLDATA_LIMIT as u64;
+    let mut sizes: Vec<(u8, u64)> = vec![(3, 0), (3, 1), (3, limit), (3, limit + 1), (3, u32::MAX as u64), (3, 1 << 63), (3, (1 << 63) + 1), (3, u64::MAX), (2, u32::MAX as u64), (2, limit as u64 + 1), (1, 65_791), (0, 255)];
+    if with_huge {
+        sizes.extend([(3, 1u64 << 34), (3, 1 << 40), (3, 1 << 47), (3, 1 << 62)]);
+    }
+    let mut v: Vec<Vec<u8>> = sizes.into_iter().map(|(f, s)| forged_zstd_frame(f, s)).collect();
+    // header only, without any block
+    v.push(forged_zstd_frame(3, u64::MAX)[..13].to_vec());
+    v
 }
 
 fn other_menu() -> Vec<Value> {
@@ -164,6 +197,10 @@ fn pre_addr(b: u8) -> String {
 
 /// A minimal serialised Bitcoin transaction: `nin` inputs spending (prev, vout), one output.
 fn btc_tx(prev: [u8; 32], vouts: &[u32], coinbase: bool, outputs: usize) -> Vec<u8> {
+    btc_tx_v(prev, vouts, coinbase, outputs, 1000)
+}
+
+pub fn btc_tx_v(prev: [u8; 32], vouts: &[u32], coinbase: bool, outputs: usize, value: u64) -> Vec<u8> {
     let mut v = vec![1, 0, 0, 0];
     v.push(vouts.len() as u8);
     for vo in vouts {
@@ -181,7 +218,7 @@ fn btc_tx(prev: [u8; 32], vouts: &[u32], coinbase: bool, outputs: usize) -> Vec<
     }
     v.push(outputs as u8);
     for _ in 0..outputs {
-        v.extend_from_slice(&1000u64.to_le_bytes());
+        v.extend_from_slice(&value.to_le_bytes());
         v.push(1);
         v.push(0x51);
     }
@@ -427,11 +464,14 @@ fn cases(tier: &str, seed: u64) -> Vec<Case> {
         ("vout out of range".into(), json!({ hx(&t1): hx(&btc_tx(t2, &[7], false, 1)), hx(&t2): hx(&btc_tx(t2, &[0], true, 1)) })),
         ("chain of two".into(), json!({ hx(&t1): hx(&btc_tx(t2, &[0], false, 2)), hx(&t2): hx(&btc_tx(t2, &[0], true, 1)) })),
         ("zero outputs".into(), json!({ hx(&t1): hx(&btc_tx(t2, &[0], false, 0)), hx(&t2): hx(&btc_tx(t2, &[0], true, 0)) })),
+        ("outputs of 2^64-1 sat each (sums wrap)".into(), json!({ hx(&t1): hx(&btc_tx_v(t2, &[0, 1, 2], false, 3, u64::MAX)), hx(&t2): hx(&btc_tx_v(t2, &[0], true, 3, u64::MAX)) })),
+        ("200 inputs".into(), json!({ hx(&t1): hx(&btc_tx(t2, &(0..200u32).collect::<Vec<_>>(), false, 2)), hx(&t2): hx(&btc_tx(t2, &[0], true, 200)) })),
+        ("inputs worth less than the outputs".into(), json!({ hx(&t1): hx(&btc_tx_v(t2, &[0], false, 2, 5000)), hx(&t2): hx(&btc_tx_v(t2, &[0], true, 1, 1)) })),
         ("garbage hex".into(), json!({ hx(&t1): "0x0102" })),
         ("empty hex".into(), json!({ hx(&t1): "0x" })),
     ];
     for (name, ov) in &overrides {
-        for (p, d) in [(0xfdu8, getTxDetailsCall { txid: t1.into() }.abi_encode()), (0xfc, getLastSatLocationCall { txid: t1.into(), vout: U256::from(0u64), sat: U256::from(0u64) }.abi_encode()), (0xfc, getLastSatLocationCall { txid: t1.into(), vout: U256::MAX, sat: U256::MAX }.abi_encode())] {
+        for (p, d) in [(0xfdu8, getTxDetailsCall { txid: t1.into() }.abi_encode()), (0xfc, getLastSatLocationCall { txid: t1.into(), vout: U256::from(0u64), sat: U256::from(0u64) }.abi_encode()), (0xfc, getLastSatLocationCall { txid: t1.into(), vout: U256::MAX, sat: U256::MAX }.abi_encode()), (0xfc, getLastSatLocationCall { txid: t1.into(), vout: U256::from(1u64), sat: U256::from(u64::MAX) }.abi_encode()), (0xfc, getLastSatLocationCall { txid: t1.into(), vout: U256::from(2u64), sat: U256::from(999u64) }.abi_encode()), (0xfc, getLastSatLocationCall { txid: t1.into(), vout: U256::from(3u64), sat: U256::ZERO }.abi_encode()), (0xfc, getLastSatLocationCall { txid: t1.into(), vout: U256::from(1u64) << 64, sat: U256::from(1u64) << 64 }.abi_encode())] {
             v.push(Case::Sim { req: Req { method: "eth_callMany".into(), label: String::new(), params: json!([[{"from": from, "to": pre_addr(p), "data": hx(&d)}], null, {"opReturnTxIds": [], "bitcoinTxHexes": ov}]) }, what: format!("precompile 0x{:02x} with override set '{}'", p, name) });
         }
     }
